@@ -375,6 +375,10 @@ func validateField(d *datadictionary.DataDictionary,
 	field TagValue,
 ) MessageRejectError {
 	if len(field.value) == 0 {
+		if !settings.CheckFieldsHaveValues {
+			// ValidateFieldsHaveValues=N: fields without values are not rejected.
+			return nil
+		}
 		return TagSpecifiedWithoutAValue(field.tag)
 	}
 
